@@ -214,6 +214,9 @@ def run(ctx):
     c15_tref(_Relabel(ctx, {"C15-TREF": "C04-EPOCH"}))
     from .C05 import check_pickle
     check_pickle(_Relabel(ctx, {"C05-PICKLE": "C04-EPOCH"}))
+    from .C17 import check_wrap
+    ctx.rule("C04-WRAP", "wrap_K keeps the curve of every row: K -> |K| together with omega -> (omega + pi) mod 2 pi on exactly the rows with K < 0 (shared with C17-WRAP).")
+    check_wrap(_Relabel(ctx, {"C17-WRAP": "C04-WRAP"}))
     from .C17 import check_pack
     ctx.rule("C04-UNPACK", "unpack labels column i of the kernel's output with the i-th key of the units mapping the kernel's layout was built from (shared with C17-PACK).")
     check_pack(_Relabel(ctx, {"C17-PACK": "C04-UNPACK"}))
